@@ -338,6 +338,9 @@ def run(ctx):
         c["mode"] = "pair"
         c["other"] = {"src": other["src"], "ops": other["ops"]}
         ctx.failures.append((c, {"kind": "name_collision_across_programs", "detail": f"{name} built with different structure by {explore.prog_key(other)}"}))
+    from checks.c19 import LARGE_PROGRAMS
+
+    okcases += [{"src": src, "ops": ops} for src, ops in LARGE_PROGRAMS]
     bad, n = cross_process(okcases)
     ctx.cov["cross_process_programs"] = n
     ctx.evaluations += 4 * n
